@@ -99,4 +99,10 @@ CHECKS = {
                  "codec registered under a tag for time.Time (value and pointer field) and the package-level functions; TLC compares every call's bytes and "
                  "decoded values with the configuration-specific model.",
          "note": TB + " Registration happens before first use of the containing type (the documented usage)."},
+ "C19": {"technique": "PlencSystem without any notion of interning as the specification; histories over interned / plain twin / null.String / two-field types on re-used, overwritten buffers validated by TraceSystem",
+         "text": "The specification has no interning at all, so transparency is conformance: TLC checks on the model that the option does not change the encoding, then "
+                 "validates every call of exhaustive 3-call and random 6..12-call histories over new, repeated, empty, same-length, prefix-sharing, binary, 70- and 128-byte "
+                 "strings decoded from one buffer that is re-marshalled in place and scribbled between calls: decoded values equal the model's, every earlier decoded "
+                 "variable is re-read after every call, and no decoded string may overlap the input buffer's memory.",
+         "note": TB + " The concurrent part (several goroutines decoding into one interned field) is exercised by the C07 check."},
 }
